@@ -395,6 +395,32 @@ Theorem C12_check_of_model : forall cap pool ops queries,
 Proof. exact check_of_model. Qed.
 Print Assumptions C12_check_of_model.
 
+(** removal by hash removes exactly the listed hashes *)
+Theorem C12_remove_exact : forall names_of cap hs s k,
+  Inv names_of cap s ->
+  alookup k (cache (remove_hashes hs s)) = if mem_str k hs then None else alookup k (cache s).
+Proof. exact remove_exact. Qed.
+Print Assumptions C12_remove_exact.
+
+(** removal by subject removes exactly the managed certificates listing a subject exactly, of the
+    given issuer if one is given *)
+Theorem C12_remove_managed_exact : forall names_of cap sj s k c,
+  Inv names_of cap s -> alookup k (cache s) = Some c ->
+  alookup k (cache (remove_managed sj s)) =
+  if c_managed c && existsb (fun p => mem_str (fst p) (c_names c) && (is_nil (snd p) || str_eqb (c_issuer c) (snd p))) sj
+  then None else Some c.
+Proof. exact remove_managed_exact. Qed.
+Print Assumptions C12_remove_managed_exact.
+
+(** replacing on renewal: the new certificate is cached, the old one gone (unless the same) *)
+Theorem C12_replace_effect : forall names_of cap old new v s,
+  Inv names_of cap s -> wf_copy names_of old -> wf_cert names_of new ->
+  let s' := replace_cert cap old new v s in
+  Inv names_of cap s' /\ amem (c_hash new) (cache s') = true /\
+  (c_hash old <> c_hash new -> amem (c_hash old) (cache s') = false).
+Proof. exact replace_effect. Qed.
+Print Assumptions C12_replace_effect.
+
 Example C12_final_hypotheses_satisfiable :
   let s2 := run 0 init [OAdd ex_c1 None; OAdd ex_c2 None] in         (* unlimited, h1 (a, b) and h2 (a) *)
   let c1' := set_tags ex_c1 [[118]%N] in                              (* a new copy of h1, other tags *)
@@ -406,6 +432,9 @@ Example C12_final_hypotheses_satisfiable :
   idx (replace_cert 0 ex_c1 c1' None s2) [98]%N = [[104; 49]%N] /\
   (* removing h2 (which shares the name a with h1) leaves h1 listed under a and b *)
   idx (remove_cert ex_c2 s2) [97]%N = [[104; 49]%N] /\ idx (remove_cert ex_c2 s2) [98]%N = [[104; 49]%N] /\
+  (* RemoveManaged("a", any issuer) removes the managed h1 and keeps the unmanaged h2; Remove([h2, zz]) removes h2 *)
+  akeys (cache (remove_managed [([97]%N, [])] s2)) = [[104; 50]%N] /\
+  akeys (cache (remove_hashes [[104; 50]; [122; 122]]%N s2)) = [[104; 49]%N] /\
   (* unlimited -> limit 1: one certificate is evicted at once *)
   DInv ex_names_of (DSt 0 s2) /\
   length (cache (d_st (set_capacity 1%Z [[104; 50]%N] (DSt 0 s2)))) = 1.
@@ -414,6 +443,7 @@ Proof.
   { apply run_inv; [apply inv_init|]. repeat constructor; cbn; try discriminate; reflexivity. }
   cbv zeta. split; [exact HI|]. split; [split; [reflexivity | discriminate]|].
   split; [left; reflexivity|]. split; [vm_compute; discriminate|].
+  split; [vm_compute; reflexivity|]. split; [vm_compute; reflexivity|].
   split; [vm_compute; reflexivity|]. split; [vm_compute; reflexivity|].
   split; [vm_compute; reflexivity|]. split; [vm_compute; reflexivity|].
   split; [exact HI | vm_compute; reflexivity].
